@@ -255,21 +255,46 @@ void report(const std::string& model_name, tmodel& model, const problem_t& p, co
         it.loop([&](tensor_range_t range, size_t, tensor2d_cmap_t inputs) { linear::predict(inputs, model.weights(), model.bias(), out.slice(range)); });
         predSumOK = same_tensor(out, outputs, 1e-12);
     }
+    // learner_t::evaluate: the (errors, losses) of the fitted model as the library itself computes them for a caller, on the fitting
+    // samples and on a longer list (230 entries taken from them in another order, with repetitions: more than one batch of the
+    // library's iterator); the stored statistics are compared with the driver's values above, and these with the library's here
+    const auto same_values = [](const tensor2d_t& lib, const tensor2d_t& own)
+    {
+        bool ok = lib.dims() == own.dims();
+        for (tensor_size_t i = 0; ok && i < lib.size(); ++i)
+        {
+            ok = close(lib(i), own(i), 1e-9);
+        }
+        return ok;
+    };
+    bool evalOK = same_values(model.evaluate(dataset, samples, loss), values);
+    {
+        indices_t other(230);
+        for (tensor_size_t i = 0; i < other.size(); ++i)
+        {
+            other(i) = samples((i * 7 + 3) % samples.size());
+        }
+        evalOK = evalOK && same_values(model.evaluate(dataset, other, loss), evaluate(dataset, other, loss, model.predict(dataset, other)));
+    }
     vt::put(vt::J("Final")
                 .i("optimum", optimum)
                 .a("means", ranks(means))
                 .b("avgOK", avgOK)
                 .b("predSumOK", predSumOK)
                 .b("statsErrOK", same_stats(result.stats(ml::value_type::errors), values.tensor(0)))
-                .b("statsLossOK", same_stats(result.stats(ml::value_type::losses), values.tensor(1))));
+                .b("statsLossOK", same_stats(result.stats(ml::value_type::losses), values.tensor(1)))
+                .b("evalOK", evalOK));
 }
 
-void gboost_case(vt::Rng& rng, int64_t icase)
+const std::vector<std::string>& classification_losses()
 {
-    auto       p    = make_problem(rng, true, rng.coin());
-    const auto loss = loss_t::all().get(p.classification ? rng.pick(std::vector<std::string>{"s-classnll", "s-logistic", "s-hinge", "s-exponential"})
-                                                         : rng.pick(std::vector<std::string>{"mse", "mae", "cauchy"}));
-    auto model = gboost_model_t{};
+    static const std::vector<std::string> ids{"s-classnll", "s-logistic", "s-hinge", "s-exponential", "s-squared-hinge", "m-logistic", "m-hinge", "s-savage"};
+    return ids;
+}
+
+// random hyper-parameters and weak-learner pool of a boosting model; returns max_rounds
+int64_t configure_gboost(vt::Rng& rng, gboost_model_t& model, std::string& desc)
+{
     const auto max_rounds = rng.range(10, 25);
     model.parameter("gboost::max_rounds") = max_rounds;
     model.parameter("gboost::patience")   = rng.range(1, 5);
@@ -284,9 +309,9 @@ void gboost_case(vt::Rng& rng, int64_t icase)
     model.parameter("gboost::wscale")    = wscale;
     model.parameter("gboost::subsample_ratio") = rng.uniform(0.5, 1.0);
 
-    const auto   all = std::vector<std::string>{"affine", "dense-table", "stump", "hinge", "dstep-table", "kbest-table", "dtree"};
+    const auto   all = std::vector<std::string>{"affine", "dense-table", "stump", "hinge", "dstep-table", "kbest-table", "ksplit-table", "dtree"};
     rwlearners_t prototypes;
-    std::string  desc = "loss=" + loss->type_id() + " shrinkage=" + shrinkage + " subsample=" + subsample + " wscale=" + wscale + " protos=";
+    desc += " shrinkage=" + shrinkage + " subsample=" + subsample + " wscale=" + wscale + " protos=";
     for (const auto& id : all)
     {
         if (rng.coin(2, 5) || (prototypes.empty() && id == "dtree"))
@@ -296,34 +321,66 @@ void gboost_case(vt::Rng& rng, int64_t icase)
         }
     }
     model.prototypes(prototypes);
-    int64_t folds = 2;
-    const auto fit_params = make_fit_params(rng, folds, desc);
+    return max_rounds;
+}
 
-    vt::put(vt::J("Reset").i("case", icase).s("desc", desc).i("samples", p.dataset->samples()));
-    const auto samples = fit_samples(rng, p.dataset->samples());
-    const auto result  = model.fit(*p.dataset, samples, *loss, fit_params);
-    report<gboost_model_t, gboost::result_t>("gboost", model, p, samples, *loss, fit_params, result, max_rounds);
+void gboost_case(vt::Rng& rng, int64_t icase)
+{
+    auto       p    = make_problem(rng, true, rng.coin());
+    const auto loss = loss_t::all().get(p.classification ? rng.pick(std::vector<std::string>{"s-classnll", "s-logistic", "s-hinge", "s-exponential"})
+                                                         : rng.pick(std::vector<std::string>{"mse", "mae", "cauchy"}));
+    auto model = gboost_model_t{};
+    {
+        std::string desc       = "loss=" + loss->type_id();
+        const auto  max_rounds = configure_gboost(rng, model, desc);
+        int64_t     folds      = 2;
+        const auto  fit_params = make_fit_params(rng, folds, desc);
+
+        vt::put(vt::J("Reset").i("case", icase).s("desc", desc).i("samples", p.dataset->samples()));
+        const auto samples = fit_samples(rng, p.dataset->samples());
+        const auto result  = model.fit(*p.dataset, samples, *loss, fit_params);
+        report<gboost_model_t, gboost::result_t>("gboost", model, p, samples, *loss, fit_params, result, max_rounds);
+    }
+    // the SAME (now fitted) object fitted again, with other hyper-parameters, weak learners, splits, samples and possibly another
+    // loss: what it reports and predicts afterwards is about the second fit alone
+    {
+        const auto loss2 = loss_t::all().get(p.classification ? rng.pick(classification_losses()) : rng.pick(std::vector<std::string>{"mse", "mae", "cauchy"}));
+        std::string desc       = "REFIT loss=" + loss2->type_id();
+        const auto  max_rounds = configure_gboost(rng, model, desc);
+        int64_t     folds      = 2;
+        const auto  fit_params = make_fit_params(rng, folds, desc);
+
+        vt::put(vt::J("Reset").i("case", icase).s("desc", desc).i("samples", p.dataset->samples()));
+        const auto samples = fit_samples(rng, p.dataset->samples());
+        const auto result  = model.fit(*p.dataset, samples, *loss2, fit_params);
+        report<gboost_model_t, gboost::result_t>("gboost", model, p, samples, *loss2, fit_params, result, max_rounds);
+    }
 }
 
 void linear_case(vt::Rng& rng, int64_t icase)
 {
-    auto       p     = make_problem(rng, false, rng.coin());
-    const auto loss  = loss_t::all().get(rng.pick(std::vector<std::string>{"mse", "mae", "cauchy"}));
+    // regression problems and (one in three) two-class problems with the classification losses
+    auto       p     = make_problem(rng, true, rng.coin());
     const auto id    = rng.pick(std::vector<std::string>{"ordinary", "ridge", "lasso", "elastic_net"});
     auto       model = linear_t::all().get(id);
     if (model == nullptr)
     {
         model = linear_t::all().get(linear_t::all().ids()[static_cast<size_t>(rng.range(0, 3))]);
     }
-    model->parameter("linear::batch")   = rng.range(10, 40);
-    model->parameter("linear::scaling") = rng.pick(std::vector<std::string>{"none", "mean", "minmax", "standard"});
-    std::string desc  = "linear=" + model->type_id() + " loss=" + loss->type_id();
-    int64_t     folds = 2;
-    const auto  fit_params = make_fit_params(rng, folds, desc);
-    vt::put(vt::J("Reset").i("case", icase).s("desc", desc).i("samples", p.dataset->samples()));
-    const auto samples = fit_samples(rng, p.dataset->samples());
-    const auto result  = model->fit(*p.dataset, samples, *loss, fit_params);
-    report<linear_t, linear::result_t>("linear", *model, p, samples, *loss, fit_params, result, 0);
+    // fitted, then the same object fitted again with another loss, scaling, batch, splits and samples
+    for (int pass = 0; pass < 2; ++pass)
+    {
+        const auto loss = loss_t::all().get(p.classification ? rng.pick(classification_losses()) : rng.pick(std::vector<std::string>{"mse", "mae", "cauchy"}));
+        model->parameter("linear::batch")   = rng.range(10, 40);
+        model->parameter("linear::scaling") = rng.pick(std::vector<std::string>{"none", "mean", "minmax", "standard"});
+        std::string desc  = std::string(pass == 0 ? "" : "REFIT ") + "linear=" + model->type_id() + " loss=" + loss->type_id();
+        int64_t     folds = 2;
+        const auto  fit_params = make_fit_params(rng, folds, desc);
+        vt::put(vt::J("Reset").i("case", icase).s("desc", desc).i("samples", p.dataset->samples()));
+        const auto samples = fit_samples(rng, p.dataset->samples());
+        const auto result  = model->fit(*p.dataset, samples, *loss, fit_params);
+        report<linear_t, linear::result_t>("linear", *model, p, samples, *loss, fit_params, result, 0);
+    }
 }
 } // namespace
 
